@@ -20,6 +20,8 @@ structure Facts where
   mixinSkipsEmptyIDs : Bool
   /-- `mergeSwaggerProps` merges external docs only when the mixin has some (`m.ExternalDocs != nil`) -/
   mixinExtDocsGuard : Bool
+  /-- `inferFromRef` stops at a `$ref` that is already being resolved up the analysis stack -/
+  schemaRefGuard : Bool
   /-- `SafeParamsFor` / `SafeParametersFor` reach the paths map and the operation only through
       nil-safe accessors (no `s.spec.Paths.Paths`, no `s.operations[..][..].Parameters`) -/
   paramsNilSafe : Bool
@@ -39,6 +41,7 @@ def reference : Facts where
   mixinMethods := ["get", "put", "post", "delete", "head", "patch", "options"]
   mixinSkipsEmptyIDs := true
   mixinExtDocsGuard := true
+  schemaRefGuard := true
   paramsNilSafe := true
   paramsForMethods := ["get", "head", "options", "post", "patch", "put", "delete"]
 
